@@ -348,6 +348,16 @@ func (p *Path) fmtArg(verb byte, v Value) *Str {
 				// (strconv.ParseUint maps it back; the digit codec itself is trusted, not encoded)
 				return &Str{b: []*Term{p.e.ts.Resize(t, 64, isSignedT(ifc.T))}}
 			}
+			// a term the path condition pins to one value formats like that value
+			if t.sort.K == SBV && (verb == 'd' || verb == 'v') && p.safeLookup(ifc.T, "String") == nil {
+				if v, ok := p.uniqueValue(t); ok {
+					c := p.e.ts.BV(t.sort.W, v)
+					if isSignedT(ifc.T) {
+						return e.strOf(fmt.Sprintf("%d", c.S()))
+					}
+					return e.strOf(fmt.Sprintf("%d", c.u))
+				}
+			}
 			// formatting a symbolic number (e.g. a time.Duration through its String method)
 			// would fork on every digit: the text is opaque instead
 			return &Str{b: []*Term{e.byteConst['?']}, opaque: true}
